@@ -210,9 +210,18 @@ def isDigitC (c : Char) : Bool := '0' ≤ c && c ≤ '9'
 def isWordC (c : Char) : Bool :=
   ('a' ≤ c && c ≤ 'z') || ('A' ≤ c && c ≤ 'Z') || isDigitC c || c == '_'
 
-/-! ## `suppress_kinds` : `(?m)^.+/kind=.*\n` ↦ "" -/
+/-! ## `suppress_kinds` : `(?m)^[^=\n]+/kind=.*\n` ↦ ""
 
-def isKindLine (l : Str) : Bool := hasInfixAfter1 cs!"/kind=" l
+The key part `[^=\n]+` cannot cross an `=`: the `=` of `/kind=` is the **first** `=` of the line, and
+the text before it ends with `/kind`, with at least one character before (since the `fix:` commit
+83ae3f3; formerly `^.+/kind=`, which also matched inside values). -/
+
+/-- The text of a line before its first `=` (the whole line when there is none). -/
+def keyPart (l : Str) : Str := l.takeWhile (· != '=')
+
+def isKindLine (l : Str) : Bool :=
+  let k := keyPart l
+  k.length < l.length && (cs!"/kind").isSuffixOf k && (cs!"/kind").length < k.length
 
 def suppressKinds (ls : List Str) : List Str := ls.filter (fun l => !isKindLine l)
 
@@ -342,22 +351,25 @@ def simplifyNegativeLiterals (ls : List Str) : List Str :=
 termination_by ls.length
 decreasing_by all_goals (simp_all; try omega)
 
-/-! ## `unquote` : `=["'](.*)['"]\n` ↦ `=\1\n` (one match per line: the leftmost `=` that is followed
-by a quote, provided the line ends with a quote distinct from the opening one). -/
+/-! ## `unquote` : `(?m)^([^=\n]*)=["'](.*)['"]\n` ↦ `\1=\2\n`
+
+Anchored on the key since the `fix:` commit 0ac09ad: the **first** `=` of the line must be followed by
+a quote and the line must end with a (distinct) quote; both delimiters are removed. -/
 
 def isQuote (c : Char) : Bool := c == '\'' || c == '"'
 
-def unquoteLine : Str → Str
+/-- What `unquote` does to the value part `v` of a line `key=v`. -/
+def unquoteValue : Str → Str
+  | q :: body =>
+    if isQuote q && (match body.getLast? with | some z => isQuote z | none => false)
+    then body.dropLast else q :: body
   | [] => []
-  | c :: rest =>
-    if c == '=' then
-      match rest with
-      | q :: body =>
-        if isQuote q && (match body.getLast? with | some z => isQuote z | none => false)
-        then c :: body.dropLast
-        else c :: unquoteLine rest
-      | [] => [c]
-    else c :: unquoteLine rest
+
+def unquoteLine (l : Str) : Str :=
+  let k := keyPart l
+  match l.drop k.length with
+  | '=' :: v => k ++ '=' :: unquoteValue v
+  | _ => l
 
 def unquote (ls : List Str) : List Str := ls.map unquoteLine
 
